@@ -738,13 +738,19 @@ def alias_locals(body, root_local):
 
 
 def guard_held_positions(body, acquire, success_edges=None):
-    """Positions at which the guard produced by call event `acquire` is certainly still held.
-    success_edges: block edges on which the acquisition succeeded (e.g. the `Some` edge of a
-    try_lock, the `Ready` edge of a lock future's poll); None = the call's normal return."""
-    dest = acquire.data["d"][0]
-    gl = alias_locals(body, dest)
-    # kill events: drop terminators / mem::drop calls / moves into other calls of a guard local,
-    # unless the local was moved into another guard local beforehand (then it is an empty shell)
+    return guards_held(body, [(acquire, success_edges)])
+
+
+def guards_held(body, acqs):
+    """Positions at which a guard produced by one of the acquisitions `acqs` = [(call event, success
+    edges | None)] is certainly held: on every path from entry, the most recent of
+    {acquisition, kill} is an acquisition. success edges: block edges on which the acquisition
+    succeeded (the `Some` edge of a try_lock, the `Ready` edge of a lock future's poll);
+    None = the call's normal return. Returns (held positions, kill positions, guard locals)."""
+    gl = set()
+    for acq, _ in acqs:
+        gl |= alias_locals(body, acq.data["d"][0])
+    acq_events = {a for a, _ in acqs}
     moved_from = {}
     for e in body.events:
         if e.kind == "assign" and e.data["r"]["k"] == "use":
@@ -755,42 +761,27 @@ def guard_held_positions(body, acquire, success_edges=None):
     for e in body.events:
         if e.kind == "drop" and e.data["p"][0] in gl and e.data["p"][1] == []:
             l = e.data["p"][0]
-            if l in moved_from and all(body.dominated_by_any(e.pos, {mp}) for mp in moved_from[l][:1]):
+            if l in moved_from and any(body.dominated_by_any(e.pos, {mp}) for mp in moved_from[l]):
                 continue
             kills.add(e.pos)
-        elif e.kind == "call" and e is not acquire:
+        elif e.kind == "call" and e not in acq_events:
             for a in e.args:
                 if "m" in a and a["m"][0] in gl and a["m"][1] == []:
-                    # the guard itself is moved into a callee (mem::drop, or handed over)
-                    kills.add(e.pos)
+                    kills.add(e.pos)  # the guard itself is moved into a callee (mem::drop, or handed over)
         elif e.kind == "dead" and e.data["dead"] in gl:
-            l = e.data["dead"]
-            if l in moved_from:
+            if e.data["dead"] in moved_from:
                 continue
             kills.add(e.pos)
-    # start positions
-    if success_edges:
-        starts = [(t, 0) for (_, t) in success_edges]
-        strict = False
-    else:
-        starts = [acquire.pos]
-        strict = True
+    rem_pos = frozenset(a.pos for a, es in acqs if not es)
+    rem_edges = frozenset(x for _, es in acqs if es for x in es)
     held = set()
-    for s in starts:
-        held |= body.pos_reach_set(s, removed=frozenset(kills), strict=strict)
-    # must: remove positions reachable from entry without the acquisition, or from a kill without re-acquiring
-    if success_edges:
-        not_dom = body.entry_reach_set(removed_edges=frozenset(success_edges))
-        # positions reachable avoiding the success edges entirely
-        # (entry_reach_set with removed edges still includes blocks reached via other edges)
-    else:
-        not_dom = body.entry_reach_set(removed=frozenset([acquire.pos]))
-    held -= not_dom
-    after_kill = set()
+    for acq, es in acqs:
+        if es:
+            for (_, t) in es:
+                held |= body.pos_reach_set((t, 0), removed=frozenset(kills), strict=False)
+        else:
+            held |= body.pos_reach_set(acq.pos, removed=frozenset(kills), strict=True)
+    held -= body.entry_reach_set(removed=rem_pos, removed_edges=rem_edges)
     for k in kills:
-        if k in held or True:
-            rem_e = frozenset(success_edges) if success_edges else frozenset()
-            rem_p = frozenset() if success_edges else frozenset([acquire.pos])
-            after_kill |= body.pos_reach_set(k, removed=rem_p, removed_edges=rem_e, strict=True)
-    held -= after_kill
+        held -= body.pos_reach_set(k, removed=rem_pos, removed_edges=rem_edges, strict=True)
     return held, kills, gl
